@@ -490,6 +490,39 @@ def trexp2(S, theta=None, check=True):
     else:
         raise ValueError(" First argument must be SO(2), 1-vector, SE(2) or 3-vector")
 
+def trnorm2(T):
+    r"""
+    Normalize an SO(2) or SE(2) matrix
+
+    :param T: SO(2) or SE(2) matrix
+    :type T1: ndarray(2,2) or ndarray(3,3)
+    :return: SO(2) or SE(2) matrix
+    :rtype: ndarray(2,2) or ndarray(3,3)
+    :raises ValueError: bad argument
+
+    - ``trnorm2(R)`` is guaranteed to be a proper orthogonal matrix rotation
+      matrix (2x2) which is *close* to the input matrix R (2x2).
+    - ``trnorm2(T)`` as above but the rotational submatrix of the homogeneous
+      transformation T (3x3) is normalised while the translational part is
+      unchanged.
+
+    The direction of the second column (the y-axis) is unchanged.
+
+    :seealso: :func:`~spatialmath.base.transforms3d.trnorm`
+    """
+
+    if not ishom2(T) and not isrot2(T):
+        raise ValueError("expecting SO(2) or SE(2)")
+
+    y = base.unitvec(T[:2, 1])
+    R = np.array([[y[1], y[0]], [-y[0], y[1]]])
+
+    if ishom2(T):
+        return base.rt2tr(R, T[:2, 2])
+    else:
+        return R
+
+
 def adjoint2(T):
     # http://ethaneade.com/lie.pdf
     if T.shape == (3,3):
